@@ -20,6 +20,7 @@ import (
 	"github.com/kercylan98/vivid"
 	"github.com/kercylan98/vivid/internal/actor"
 	"github.com/kercylan98/vivid/internal/mailbox"
+	"github.com/kercylan98/vivid/internal/messages"
 	"github.com/kercylan98/vivid/internal/remoting"
 	"github.com/kercylan98/vivid/internal/remoting/serialize"
 	"github.com/kercylan98/vivid/pkg/ves"
@@ -176,6 +177,11 @@ func runUnreachable(n, limit int, seed int64) ([]map[string]any, int64, error) {
 				rec.ev(map[string]any{"e": "DLocal", "m": int(r.ID)})
 				rec.count.Add(1)
 			}
+			// a system message that could not be written either (the Watch below) is reported the same way
+			if _, ok := m.Envelope.Message().(*messages.WatchMessage); ok && m.Envelope.Receiver() != nil && m.Envelope.Receiver().GetPath() == "/nobody" {
+				rec.ev(map[string]any{"e": "DLocal", "m": 9001})
+				rec.count.Add(1)
+			}
 		}
 	}), vivid.WithActorName("dl-observer")); err != nil {
 		return nil, 0, err
@@ -196,6 +202,9 @@ func runUnreachable(n, limit int, seed int64) ([]map[string]any, int64, error) {
 						maxTell.Store(d)
 					}
 				}
+				// one system message to the same unreachable peer
+				rec.ev(map[string]any{"e": "Sent", "src": "/snd", "dst": "/nobody", "m": 9001, "k": "tell"})
+				ctx.Watch(target)
 			}
 		case time.Time:
 			probeLatency.Store(time.Since(m).Microseconds())
@@ -214,7 +223,7 @@ func runUnreachable(n, limit int, seed int64) ([]map[string]any, int64, error) {
 	case <-time.After(10 * time.Second):
 	}
 	deadline := time.Now().Add(2 * time.Second)
-	for time.Now().Before(deadline) && int(rec.count.Load()) < n {
+	for time.Now().Before(deadline) && int(rec.count.Load()) < n+1 {
 		time.Sleep(time.Millisecond)
 	}
 	time.Sleep(10 * time.Millisecond)
